@@ -510,8 +510,19 @@ def ep_union_pass(prog: Program) -> RuleResult:
             continue
         if not (e.bindings.must & left and e.bindings.must & right):
             bad = bad or (e, fl)
-    if n < 2:
-        raise AnalysisError("EP-UNION-PASS: the union evaluation has fewer than two emissions")
+    if n < 1:
+        raise AnalysisError("EP-UNION-PASS: the union evaluation has no emission")
+    # ... and the falsity of the disjunction is reported at all: some emission that is not restricted to true results carries bindings under
+    # which both operands were evaluated. Whoever sits above needs it - a negation turns it into a row, an else-if tries its next branch.
+    def true_only(e):
+        fl_ = e.flag.flag if e.flag is not None else None
+        return fl_ == ("const", False) or any((str(g[2]).endswith(".is_true") and g[1] is True) or (str(g[2]).endswith(".is_false") and g[1] is False) for g in e.guards) \
+            or any("is_true" in str(g) and "filter" in str(g) for g in e.guards)
+    verdicts = [e for e in s.emissions if not true_only(e) and e.bindings.must & left and e.bindings.must & right]
+    r.check(bool(verdicts), "Union#reports-false-when-both-are-false", un.loc, f"{len(verdicts)} of {n} emissions can carry the falsity of the disjunction",
+            "a pass that evaluated both operands hands its false results on",
+            "every pass of the union evaluation hands on true results only: the disjunction never reports a binding as false, so not_(and_(or_(a(x), b(y)), c(x))) loses every row on "
+            "which the disjunction is false, and or_(a(x), b(y), c(x, y)) never tries c")
     r.check(bad is None, "Union#false-means-both-false", un.loc, f"{n} emissions of the union evaluation",
             "a result is flagged false only with bindings under which both operands were evaluated",
             f"the union evaluation ({bad[0].func if bad else ''}) emits a result flagged false from {_flag_label(bad[1], s) if bad else ''} alone: "
